@@ -4,29 +4,38 @@ package locate
 
 // C09 white-box extension — clause (4), non-regression of the cached index.
 //
-// While the workload is sequential, the ordered index (mu.sorted), the
-// by-version map (mu.regions) and the newest-version map (mu.latestVersions)
-// are walked at every interaction of the cache with the outside world (PD
-// call enter/exit, RPC enter/exit, end of an operation).  Between two
-// consecutive walks the cache can have installed at most the regions of ONE
-// answer (a PD answer computed from one topology snapshot, or the current
-// regions of one EpochNotMatch reply), so a transition can be judged exactly:
+// The cache of this unit is built without the background GC (NewTestRegionCache
+// + SetPDClient), so every change of the index happens in the driver goroutine
+// and a GC round is an explicit workload step.  The ordered index (mu.sorted),
+// the by-version map (mu.regions) and the newest-version map
+// (mu.latestVersions) are walked at every interaction of the cache with the
+// outside world (PD call enter/exit, RPC enter/exit, end of an operation).
+// Between two consecutive walks the cache can have installed at most the
+// regions of ONE answer (a PD answer computed from one topology snapshot, or
+// the current regions of one EpochNotMatch reply), so a transition can be
+// judged exactly:
 //
-//	(4a) per region id the newest cached epoch (version, conf_ver) does not
-//	     decrease while the newer entry is still held;
+//	(4a) per region id the newest-version record does not go backwards;
 //	(4b) a delivered region version that was newly installed is not older
-//	     (version) than an entry that was held before and starts inside its
-//	     range.
+//	     than ANY entry of the same region id that was in the index before
+//	     (version or conf_ver; the entries are compared, not the cache's own
+//	     latestVersions bookkeeping — a region id can have several entries
+//	     under different start keys once the original id keeps the right half
+//	     of a split), and not older (version) than an entry that was in the
+//	     index before and starts inside its range.
 //
-// "Held" = present in the index and not removable by the background GC (TTL
-// far in the future); entries that are invalidated/expired may be collected
-// at any moment and are therefore not used as evidence.
+// No false alarm through "evicted earlier in the same batch": the regions of
+// one answer are disjoint, and the version of the region owning a given key
+// never decreases along splits (both halves +1) and merges (max+1), so a
+// region of an older snapshot can never evict (version >=) a newer entry of
+// another id that has moved onto its keys.
 //
 // This file uses private fields and may stop compiling after a refactor; its
 // unit is marked optional.
 
 import (
 	"bytes"
+	"context"
 	"fmt"
 	"math/rand"
 	"strings"
@@ -34,8 +43,10 @@ import (
 	"testing"
 	"time"
 
+	"github.com/tikv/client-go/v2/internal/apicodec"
 	"github.com/tikv/client-go/v2/internal/mockstore/mocktikv"
 	"github.com/tikv/client-go/v2/verifh/vrep"
+	pd "github.com/tikv/pd/client"
 )
 
 type c09IdxEntry struct {
@@ -97,6 +108,19 @@ func c09WalkIndex(c *RegionCache) *c09IdxSnap {
 type c09WBState struct {
 	prev    *c09IdxSnap
 	pending []RegionVerID
+	gc      func(context.Context, time.Time) bool
+}
+
+// c09WBNewCache: a region cache without background jobs (no GC goroutine).
+func c09WBNewCache(w *c09World, pdc pd.Client) *RegionCache {
+	c := NewTestRegionCache()
+	c.codec = apicodec.NewCodecV1(apicodec.ModeRaw)
+	if cp, ok := pdc.(*CodecPDClient); ok {
+		c.codec = cp.GetCodec()
+	}
+	c.SetPDClient(pdc)
+	c.clusterID = pdc.GetClusterID(context.Background())
+	return c
 }
 
 func c09WBObserve(w *c09World, point string, delivered []RegionVerID) {
@@ -115,8 +139,6 @@ func c09WBObserve(w *c09World, point string, delivered []RegionVerID) {
 }
 
 func c09JudgeTransition(w *c09World, point string, prev, cur *c09IdxSnap, pending []RegionVerID) {
-	now := time.Now().Unix()
-	held := func(e c09IdxEntry) bool { return e.ttl > now+30 }
 	w.r.Eval(1)
 	detail := func() map[string]any {
 		var ds []string
@@ -126,20 +148,25 @@ func c09JudgeTransition(w *c09World, point string, prev, cur *c09IdxSnap, pendin
 		}
 		return map[string]any{"observed_at": point, "index_before": prev.String(), "index_after": cur.String(), "delivered_in_between": strings.Join(ds, " ")}
 	}
-	// (4a)
+	// (4a) the newest-version record of an id does not go backwards
 	for id, pv := range prev.latest {
 		cv, ok := cur.latest[id]
 		if !ok || cv == pv {
 			continue
 		}
 		if cv.ver < pv.ver || cv.confVer < pv.confVer {
-			pe, ok := prev.entry(pv)
-			if !ok || !held(pe) {
-				w.r.Count("regress_over_unheld_entry_ignored", 1)
-				continue
-			}
-			w.violate("index:epoch-regressed", fmt.Sprintf("region %d: cached newest epoch went from (ver %d, conf %d) to (ver %d, conf %d) while the newer entry was held",
+			w.violate("index:epoch-regressed", fmt.Sprintf("region %d: cached newest epoch went from (ver %d, conf %d) to (ver %d, conf %d)",
 				id, pv.ver, pv.confVer, cv.ver, cv.confVer), detail())
+		}
+	}
+	multi := map[uint64]int{}
+	for _, e := range cur.entries {
+		multi[e.ver.id]++
+	}
+	for _, n := range multi {
+		if n >= 2 {
+			w.r.Count("walks_with_two_entries_of_one_id", 1)
+			break
 		}
 	}
 	// (4b)
@@ -150,33 +177,39 @@ func c09JudgeTransition(w *c09World, point string, prev, cur *c09IdxSnap, pendin
 		if !known {
 			continue
 		}
-		// is there a held, newer entry starting inside d's range (other than d itself)?
 		var newer *c09IdxEntry
+		why := ""
 		for i := range prev.entries {
 			p := prev.entries[i]
-			if p.ver == d || !held(p) {
+			if p.ver == d {
 				continue
 			}
-			if bytes.Compare(p.start, rg.start) >= 0 && (len(rg.end) == 0 || bytes.Compare(p.start, rg.end) < 0) && p.ver.ver > d.ver {
-				newer = &prev.entries[i]
+			if p.ver.id == d.id && (p.ver.ver > d.ver || p.ver.confVer > d.confVer) {
+				newer, why = &prev.entries[i], "same region id"
 				break
 			}
-		}
-		if pv, ok := prev.latest[d.id]; ok && (pv.ver > d.ver || pv.confVer > d.confVer) {
-			if pe, ok := prev.entry(pv); ok && held(pe) && newer == nil {
-				newer = &pe
+			if bytes.Compare(p.start, rg.start) >= 0 && (len(rg.end) == 0 || bytes.Compare(p.start, rg.end) < 0) && p.ver.ver > d.ver {
+				newer, why = &prev.entries[i], "starts inside its range"
+				break
 			}
 		}
 		switch {
 		case !before && after:
 			w.r.Count("installs_observed", 1)
 			if newer != nil {
-				w.violate("index:stale-installed-over-newer", fmt.Sprintf("delivered r%d@%d.%d[%s,%s) was installed although the cache held the newer %s",
-					d.id, d.ver, d.confVer, c09K(rg.start), c09K(rg.end), newer.String()), detail())
+				sig := "index:stale-installed-over-newer"
+				if why == "same region id" {
+					sig = "index:stale-installed-over-newer-of-same-id"
+				}
+				w.violate(sig, fmt.Sprintf("delivered r%d@%d.%d[%s,%s) was installed although the cache held the newer %s (%s)",
+					d.id, d.ver, d.confVer, c09K(rg.start), c09K(rg.end), newer.String(), why), detail())
 			}
 		case !after:
 			if newer != nil {
 				w.r.Count("stale_deliveries_refused", 1)
+				if why == "same region id" && newer.ver.ver == d.ver {
+					w.r.Count("stale_conf_ver_deliveries_refused", 1)
+				}
 			}
 		}
 	}
@@ -194,6 +227,20 @@ func c09WBStep(w *c09World, rng *rand.Rand) string {
 	w.cache.mu.RUnlock()
 	if len(regs) == 0 {
 		return ""
+	}
+	if rng.Intn(5) == 0 {
+		// one round of the cache GC (collects expired entries, sets delayed-reload flags)
+		st, _ := w.wbState.(*c09WBState)
+		if st == nil {
+			st = &c09WBState{}
+			w.wbState = st
+		}
+		if st.gc == nil {
+			st.gc = w.cache.gcRoundFunc(cleanRegionNumPerRound)
+		}
+		st.gc(context.Background(), time.Now())
+		w.r.Count("gc_rounds", 1)
+		return "GC round"
 	}
 	r := regs[rng.Intn(len(regs))]
 	v := r.VerID()
@@ -217,6 +264,7 @@ func c09WBStep(w *c09World, rng *rand.Rand) string {
 func init() {
 	c09Observe = c09WBObserve
 	c09WBOp = c09WBStep
+	c09NewCache = c09WBNewCache
 }
 
 func TestVerifC09WBIndex(t *testing.T) {
@@ -242,4 +290,8 @@ func TestVerifC09WBIndex(t *testing.T) {
 	r.Floor("installs_observed", vrep.Pick(7000, 110000))
 	r.Floor("stale_deliveries_refused", vrep.Pick(120, 2000))
 	r.Floor("whitebox_invalidations", vrep.Pick(500, 8000))
+	r.Floor("gc_rounds", vrep.Pick(100, 1500))
+	r.Floor("motif_right_derive", vrep.Pick(150, 2500))
+	r.Floor("walks_with_two_entries_of_one_id", vrep.Pick(500, 8000))
+	r.Floor("stale_conf_ver_deliveries_refused", vrep.Pick(40, 600))
 }
